@@ -10,7 +10,7 @@ Cut from the CURRENT tree and transliterated each run (tools/translit.py + the p
   * RBGroundBody (RigidBodyNode_Weld.cpp): the Ground versions of all the passes
   * the level-by-level driver loops of SimbodyMatterSubsystemRep.cpp: realizeArticulatedBodyInertias, realizeArticulatedBodyVelocity,
     realizeVelocityKinematics, calcTreeAccelerations, multiplyByMInv, multiplyByM, calcTreeResidualForces, calcKineticEnergy,
-    calcCompositeBodyInertias, multiplyBySystemJacobian[Transpose], calcTreeEquivalentMobilityForces (loops + pointer bindings + temporaries are kept,
+    calcCompositeBodyInertias, multiplyBySystemJacobian[Transpose] (loops + pointer bindings + temporaries are kept,
     State/cache/stage plumbing is dropped and logged)
   * PhiMatrix operators (SpatialAlgebra.h), SpatialInertia_/UnitInertia_/Inertia_/ArticulatedInertia_ members (MassProperties.h/.cpp),
     Mat<N,N>::invert() for N = 1,2,3 (SmallMatrixMixed.h inverse()/det())
@@ -274,7 +274,7 @@ def add_driver(B, cls, anchor, name, extra_keep=()):
                 if not pm:
                     ok = False
                     break
-                outl.append("%s = %s(%s);" % (pm.group(1), "NEW_SVARR" if m.group(2) == "SpatialVec" else "NEW_RARR", re.sub(r"(?<![\w.])(get\w+)\(", r"self.\1(", pm.group(2))))
+                outl.append("%s = %s(%s, \"%s\");" % (pm.group(1), "NEW_SVARR" if m.group(2) == "SpatialVec" else "NEW_RARR", re.sub(r"(?<![\w.])(get\w+)\(", r"self.\1(", pm.group(2)), pm.group(1)))
             if ok:
                 P.hit("temporary array declaration kept", s)
                 kept += outl
@@ -327,7 +327,12 @@ def build(ctx, want_invert=(1, 2, 3)):
     ns["SpatialVec"] = ns["SpatialVecP"] = S.SpatialVec
     ns["SymMat_3_P"] = ns["SymMat33P"] = ns["SymMat_3_E"] = ns["SymMat33"] = S.symmat33
     ns["HType"] = HMat
-    ns["NEW_SVARR"], ns["NEW_RARR"] = (lambda n: SVArr(int(n))), (lambda n: RArr(int(n)))
+    B.temps = {}                                  # the drivers' local temporaries (last call), by their C++ name: visible to the harness for lemma chains
+    def _new(cls):
+        def f(n, name):
+            a = cls(int(n)); B.temps[name] = a; return a
+        return f
+    ns["NEW_SVARR"], ns["NEW_RARR"] = _new(SVArr), _new(RArr)
     ns["PTR"] = lambda base, off: View(base, off)
     ns["GETAS"] = lambda base, off, n, kind: (Row if kind == "Row" else Vec)([base[int(off) + i] for i in range(int(n))])
     def SETAS(base, off, n, v):
@@ -373,7 +378,18 @@ def build(ctx, want_invert=(1, 2, 3)):
                 if n in (1, 2, 3):
                     r = ns["inverse_%d" % n](Mat(self.m))
                     return MatDD(r.m)
-                raise NotModelled("Mat<%d,%d>::invert() goes to Lapack (getrf/getri)" % (n, n))
+                # N > 3: Lapack getrf/getri. Modelled by the defining equations of the inverse (assumed contract, logged by the checks that use it):
+                # a fresh SYMMETRIC matrix X (the inverse of a symmetric matrix is symmetric) with X*D == 1 and D*X == 1 recorded in ENV.defs
+                S.ENV.fresh += 1
+                k = S.ENV.fresh
+                X_ = [[None] * n for _ in range(n)]
+                for i in range(n):
+                    for j in range(i, n):
+                        X_[i][j] = X_[j][i] = z3.Real("inv%d_%d%d" % (k, i, j))
+                Xm = MatDD(X_)
+                me = Mat(self.m)
+                S.ENV.defs.append(("inverse", Xm, z3.And(*([g for _, g in S.eq_all(Xm * me, eye(n))] + [g for _, g in S.eq_all(me * Xm, eye(n))]))))
+                return Xm
             finally:
                 S.ENV.abstract_scalars = old
         def __invert__(self): return MatDD(Mat.__invert__(self).m)
@@ -599,6 +615,7 @@ def build(ctx, want_invert=(1, 2, 3)):
             self.nb = len(self.nodes)
             self.nu = sum(n.dof for n in self.nodes)
             self.sbs = M.Sbs(self)
+            ns["stateDigest"] = ns["sbs"] = self.sbs          # `SBStateDigest stateDigest(state, *this, stage)` of the drivers: the digest of the CURRENT matter object
             self.u = None
             self.qdot = RArr(self.nu)
         def getNumBodies(self): return self.nb
@@ -628,10 +645,659 @@ def build(ctx, want_invert=(1, 2, 3)):
                        ("multiplyByM", R + r"multiplyByM\(const State&\s*s,[^{;]*?\)\s*const\s*"),
                        ("calcTreeResidualForces", R + r"calcTreeResidualForces\(const State& s,[^{;]*?\)\s*const\s*"),
                        ("calcKineticEnergy", R + r"calcKineticEnergy\(const State& s\) const\s*"),
-                       ("calcCompositeBodyInertias", R + r"calcCompositeBodyInertias\(const State& s,[^{;]*?\)\s*const\s*")):
+                       ("calcCompositeBodyInertias", R + r"calcCompositeBodyInertias\(const State& s,[^{;]*?\)\s*const\s*"),
+                       ("multiplyBySystemJacobian", R + r"multiplyBySystemJacobian\(const State& s,[^{;]*?\)\s*const\s*"),
+                       ("multiplyBySystemJacobianTranspose", R + r"multiplyBySystemJacobianTranspose\s*\(const State&\s*s,[^{;]*?\)\s*const\s*")):
         drivers[nm] = add_driver(B, Matter, anchor, nm)
     B.drivers = drivers
     B.dump_sources()
     B.cls = dict(DNode=DNode, Ground=Ground, Matter=Matter, PhiMatrix=PhiMatrix, SpatialInertia=SpatialInertia, UnitInertia=UnitInertia, Inertia=Inertia,
                  ArticulatedInertia=ArticulatedInertia, MatDD=MatDD, SIArr=SIArr)
     return B
+
+
+# ----------------------------------------------------------------------
+# symbolic data, let-abstraction on the term DAG, scenarios shared by C01 / C02
+# ----------------------------------------------------------------------
+def R_(n): return z3.Real(n)
+def v3(n): return Vec(*[R_("%s%d" % (n, i)) for i in range(3)])
+def sv(n): return SpatialVec(v3(n + "w"), v3(n + "v"))
+def sym_H(n, dof): return HMat(dof, [sv("%s%d" % (n, j)) for j in range(dof)])
+def sym_Mk(B, n): return B.cls["SpatialInertia"](R_(n + "m"), v3(n + "c"), B.cls["UnitInertia"](S.symmat33(*[R_("%sg%d" % (n, i)) for i in range(6)])))
+def sym_ABI(B, n):
+    return B.cls["ArticulatedInertia"](S.symmat33(*[R_("%sM%d" % (n, i)) for i in range(6)]), Mat([[R_("%sF%d%d" % (n, i, j)) for j in range(3)] for i in range(3)]),
+                                       S.symmat33(*[R_("%sJ%d" % (n, i)) for i in range(6)]))
+def zero_sv(): return SpatialVec(Vec(0, 0, 0), Vec(0, 0, 0))
+
+
+def flat(x):
+    """elements (D) of any shim object"""
+    if isinstance(x, (list, tuple)):
+        return [e for y in x for e in flat(y)]
+    if isinstance(x, HMat):
+        return x.flat()
+    if hasattr(x, "M") and hasattr(x, "F") and hasattr(x, "J"):       # ArticulatedInertia
+        return flat(x.M) + flat(x.F) + flat(x.J)
+    return S.elements(x)
+
+
+def remap(f, x):
+    if isinstance(x, (list, tuple)):
+        return type(x)(remap(f, y) for y in x) if not isinstance(x, Arr) else [remap(f, y) for y in x]
+    if isinstance(x, HMat):
+        return HMat(x.dof, [remap(f, c) for c in x.cols])
+    if hasattr(x, "M") and hasattr(x, "F") and hasattr(x, "J"):
+        return type(x)(remap(f, x.M), remap(f, x.F), remap(f, x.J))
+    return S.vmap(f, x)
+
+
+class Abstraction:
+    """let-abstraction by substitution on the term DAG: the element terms of a computed object are replaced by fresh variables everywhere
+    (goals and hypotheses alike). A goal proved after the substitution holds for every value of the fresh variables, in particular for the
+    computed ones (sound generalisation); facts about the abstracted object that a goal needs are added as explicit hypotheses, each of them
+    a previously discharged obligation. Groups are applied in the order they were bound (bind outer terms first)."""
+    def __init__(self):
+        self.groups = []
+        self.k = 0
+    def bind(self, obj, prefix, merge=()):
+        """-> the abstract copy of obj. merge: pairs of element indices that get the SAME variable (proved equal elsewhere)"""
+        cur = flat(self.map(obj))
+        pairs, names = [], {}
+        rep = {}
+        for a, b in merge:
+            rep[b] = a
+        for i, e in enumerate(cur):
+            t = val(e)
+            if z3.is_rational_value(t) or (z3.is_const(t) and t.decl().kind() == z3.Z3_OP_UNINTERPRETED):
+                continue
+            j = rep.get(i, i)
+            if j in names:
+                v = names[j]
+            else:
+                hit = [v_ for (t_, v_) in pairs if t_.eq(t)]
+                if hit:
+                    v = hit[0]
+                else:
+                    self.k += 1
+                    v = z3.Real("%s_%d" % (prefix, self.k))
+                names[j] = v
+            if not any(t_.eq(t) for (t_, _) in pairs):
+                pairs.append((t, v))
+        self.groups.append(pairs)
+        return self.map(obj)
+    def rewrite(self, obj, to):
+        """replace the element terms of obj by the element terms of `to` (an equality proved elsewhere)"""
+        pairs = []
+        for a, b in zip(flat(self.map(obj)), flat(to)):
+            if not val(a).eq(val(b)) and not any(t_.eq(val(a)) for (t_, _) in pairs):
+                pairs.append((val(a), val(b)))
+        self.groups.append(pairs)
+    def copy(self):
+        a = Abstraction(); a.groups = [list(g) for g in self.groups]; a.k = self.k; return a
+    def __call__(self, e):
+        for g in self.groups:
+            if g:
+                e = z3.substitute(e, *g)
+        return e
+    def map(self, obj):
+        return remap(lambda x: D(self(val(x))), obj)
+    def nvars(self):
+        return sum(len(g) for g in self.groups)
+
+
+def recip_defs():
+    return [d[2] for d in S.ENV.defs]
+
+
+def abstract_classes(B, dof):
+    """an abstract mobilizer of `dof` mobilities: the mobilizer-specific members that realizeVelocity calls (calcQDot, HDot_FM, HDot = d/dt H_PB_G:
+    C03's matter) hand back symbolic data; everything else is the transliterated RigidBodyNodeSpec / RigidBodyNode code"""
+    C = B.cls
+    d = dof
+    class N(C["DNode"]):
+        dof = d
+        def calcQDotDot(self, *a): pass                      # qdotdot = N udot + NDot u: C03's matter, not used here
+        def calcQDot(self, *a): pass
+        def calcAcrossJointVelocityJacobianDot(self, sbs, HD): HD.assign(self.sym_HDot_FM)
+        def calcParentToChildVelocityJacobianInGroundDot(self, mv, pc, vc, HD): HD.assign(self.sym_HDot)
+    class G0(C["Ground"]):
+        def calcQDotDot(self, *a): pass
+    return N, G0
+
+
+@functools.lru_cache(maxsize=1)
+def ground_cache_zero():
+    """Ground's velocity-cache entries are set once by SBTreeVelocityCache::allocate (SimbodyTreeState.h); read the two the model uses from the source"""
+    t = blank_comments(open(os.path.join(SRC, "SimbodyTreeState.h")).read())
+    for fld in ("bodyVelocityInGround", "totalCoriolisAcceleration"):
+        if not re.search(r"\b%s\[GroundIndex\]\s*=\s*SVZero\s*;" % fld, t):
+            raise ExtractionError("SimbodyTreeState.h: %s[GroundIndex] = SVZero not found (Ground's velocity cache entry)" % fld)
+    return True
+
+
+class Tree:
+    """Ground + serial chain of n bodies, every mobilizer with `dof` mobilities and a fully symbolic hinge matrix H (columns = arbitrary spatial
+    vectors), symbolic spatial inertia Mk (mass, mass centre, unit inertia), symbolic parent-to-body shift (Phi), symbolic velocity-dependent
+    terms unless realized from u by the real velocity recursion."""
+    def __init__(self, B, nb, dof=1, bias="symbolic"):
+        S.reset_env()
+        C = B.cls
+        self.B, self.nb, self.dof = B, nb, dof
+        tok = B.ns["ic"]
+        self.tok = tok
+        N, G0 = abstract_classes(B, dof)
+        g = G0(0)
+        ground_cache_zero()
+        for fld in ("V_GB", "TotalCoriolisAcceleration"):       # SBTreeVelocityCache::allocate: Ground's entries are SVZero
+            g._set(fld, 0)
+        self.nodes = [g]
+        for k in range(1, nb + 1):
+            n = N(k, (k - 1) * dof, self.nodes[-1], mass=D(R_("k%dm" % k)))
+            n.setH(tok, sym_H("h%d_" % k, dof)); n.setPhi(tok, C["PhiMatrix"](v3("l%d_" % k))); n.setMk_G(tok, sym_Mk(B, "k%d" % k))
+            if bias == "symbolic":
+                n.setMobilizerCoriolisAcceleration(tok, sv("a%d" % k)); n.setGyroscopicForce(tok, sv("b%d" % k))
+            elif bias == "zero":
+                n.setMobilizerCoriolisAcceleration(tok, 0); n.setGyroscopicForce(tok, 0)
+            n.sym_HDot_FM = sym_H("hdfm%d_" % k, dof); n.sym_HDot = sym_H("hd%d_" % k, dof); n.setH_FM(tok, sym_H("hfm%d_" % k, dof))
+            self.nodes.append(n)
+        self.matter = C["Matter"]([[x] for x in self.nodes])
+        self.nu = nb * dof
+    def rvec(self, name): return RArr([R_("%s%d" % (name, k)) for k in range(self.nu)])
+    def svec(self, name, ground_zero=False): return SVArr([sv("%s%d" % (name, k)) for k in range(self.nb + 1)])
+    def forward(self, f, F):
+        nb, nu = self.nb, self.nu
+        out = dict(eps=RArr(nu), z=SVArr(nb + 1), zPlus=SVArr(nb + 1), A=SVArr(nb + 1), udot=RArr(nu), qdd=RArr(nu), tau=RArr(0))
+        self.matter.calcTreeAccelerations(self.tok, f, F, CList(), out["eps"], out["z"], out["zPlus"], out["A"], out["udot"], out["qdd"], out["tau"])
+        return out
+    def inverse(self, f, F, udot):
+        out = dict(A=SVArr(self.nb + 1), res=RArr(self.nu))
+        self.matter.calcTreeResidualForces(self.tok, f, F, udot, out["A"], out["res"])
+        return out
+    def mulM(self, a):
+        Ma = RArr(self.nu)
+        self.matter.multiplyByM(self.tok, a, Ma)
+        return Ma
+    def mulMInv(self, f):
+        out = RArr(self.nu)
+        self.matter.multiplyByMInv(self.tok, f, out)
+        return out
+
+
+def prove(B, A, name, lhs, rhs, hyps, unit, fn, timeout_ms=30000, bounded=None):
+    """B.prove_eq under the abstraction A (None: none) with exactly the given hypotheses; -> True iff every element was discharged"""
+    n0 = len(B.ctx.obligations)
+    if A is not None:
+        lhs, rhs, hyps = A.map(lhs), A.map(rhs), [A(h) for h in hyps]
+    if S.is_scalar(rhs) and not S.is_scalar(lhs):
+        rhs = remap(lambda x: D(rhs), lhs)
+    rs = B.prove_eq(name, lhs, rhs, list(hyps), unit, fn, timeout_ms=timeout_ms, minimal=True)
+    if bounded:
+        for ob in B.ctx.obligations[n0:]:
+            ob.bounded = bounded
+    return all(r.status == "discharged" for r in rs)
+
+
+def eqs(lhs, rhs):
+    return [g for _, g in S.eq_all(lhs, rhs)]
+
+
+# ----------------------------------------------------------------------
+# (N) node scenario: ONE node of `dof` mobilities between an arbitrary parent and `nchild` arbitrary children
+# ----------------------------------------------------------------------
+SPEC = "RigidBodyNodeSpec<dof>::"
+
+
+class NodeScenario:
+    def __init__(self, B, dof, nchild=1):
+        S.reset_env()
+        C = B.cls
+        self.B, self.dof, self.tok = B, dof, B.ns["ic"]
+        tok = self.tok
+        d = dof
+        class N(C["DNode"]):
+            dof = d
+        class N1(C["DNode"]):
+            dof = 1
+        self.parent = N1(0, 0, None)
+        self.n = N(1, 0, self.parent, mass=D(R_("km")))
+        self.H, self.l, self.Mk = sym_H("h", dof), v3("l"), sym_Mk(B, "k")
+        self.n.setH(tok, self.H); self.n.setPhi(tok, C["PhiMatrix"](self.l)); self.n.setMk_G(tok, self.Mk)
+        self.children = []
+        for k in range(nchild):
+            c = N1(2 + k, dof + k, self.n)
+            c.l, c.PPlus = v3("lc%d_" % k), sym_ABI(B, "pc%d_" % k)
+            c.setPhi(tok, C["PhiMatrix"](c.l)); c.setPPlus(tok, c.PPlus)
+            self.children.append(c)
+        self.nb = 2 + nchild
+
+    def shift_in(self, l, F):
+        """child-to-parent shift of a spatial force, written out: (F0 + l x F1, F1)"""
+        return SpatialVec(F[0] + cross(l, F[1]), F[1])
+
+    def shift_out(self, l, A):
+        """parent-to-child shift of a spatial velocity/acceleration, written out: (A0, A1 + A0 x l)"""
+        return SpatialVec(A[0], A[1] + cross(A[0], l))
+
+
+def sympairs(n):
+    return [(i * n + j, j * n + i) for i in range(n) for j in range(i + 1, n)]
+
+
+def abi_lemmas(B, sc, U):
+    """realizeArticulatedBodyInertiasInward on the node of sc. -> dict with the abstraction used downstream (P free, DI free symmetric)"""
+    n, tok, dof = sc.n, sc.tok, sc.dof
+    fn = SPEC + "realizeArticulatedBodyInertiasInward"
+    n.realizeArticulatedBodyInertiasInward(tok, tok, tok)
+    P, PPlus, G, Dm, DI, H = n.getP(tok), n.getPPlus(tok), n.getG(tok), n.getD(tok), n.getDI(tok), sc.H
+    defs = recip_defs()
+    x, y = sv("x"), Vec(*[R_("y%d" % i) for i in range(dof)])
+    ok = True
+    # N1 assembly of P from the body's spatial inertia and the children's P+ (two different code routes: ABI constructor + ABI shift + += versus
+    # SpatialInertia*V, PhiMatrix products, ABI*V)
+    rhs = sc.Mk * x
+    for c in sc.children:
+        rhs = rhs + n_phi(B, c.l) * (c.PPlus * ((~n_phi(B, c.l)) * x))
+    ok &= prove(B, None, "N1 P*x == Mk*x + sum_c Phi_c*(PPlus_c*(~Phi_c*x))  (P = Mk + sum Phi P+ ~Phi)", P * x, rhs, [], U, fn)
+    A1 = Abstraction()
+    Pa = A1.bind(P, "p")
+    ok &= prove(B, A1, "N2 D == ~D  (D = ~H P H symmetric; P arbitrary symmetric ABI)", Dm, ~Dm, [], U, fn)
+    # N3 the inversion: D entries free (symmetric positions merged: N2), DI from the real Mat<dof,dof>::invert()
+    A2 = A1.copy()
+    A2.bind(Dm, "d", merge=sympairs(dof))
+    hyp = [A2(h) for h in defs]
+    B.guard_sat("%s N3 1/det(D) exists" % U, hyp, U)
+    ok &= prove(B, A2, "N3a DI*D == 1  (det D != 0)", DI * Dm, eye(dof), defs, U, "Mat<%d,%d>::invert" % (dof, dof))
+    ok &= prove(B, A2, "N3b D*DI == 1  (det D != 0)", Dm * DI, eye(dof), defs, U, "Mat<%d,%d>::invert" % (dof, dof))
+    ok &= prove(B, A2, "N3c DI == ~DI  (D symmetric)", DI, ~DI, [], U, "Mat<%d,%d>::invert" % (dof, dof))
+    # downstream: DI free symmetric (N3c), P free
+    A3 = A1.copy()
+    A3.bind(DI, "s", merge=sympairs(dof))
+    ok &= prove(B, A3, "N4 G*y == P*(H*(DI*y))  (G = P H DI)", G * y, P * (H * (DI * y)), [], U, fn)
+    ok &= prove(B, A3, "N5 PPlus*x == P*x - G*(~H*(P*x))  (P+ = (1 - G ~H) P; the symmetrisation changes nothing)", PPlus * x, P * x - G * ((~H) * (P * x)), [], U, fn)
+    HPx = (~H) * (P * x)
+    ok &= mod_inverse(B, A3, "N6 ~H*(PPlus*x) == 0  (the projected inertia annihilates the joint space)", (~H) * (PPlus * x), Vec([0] * dof), Dm, DI, -HPx, U, fn)
+    xx = sv("xx")
+    ok &= prove(B, A3, "N7 ~xx*(PPlus*x) == ~x*(PPlus*xx)  (P+ symmetric)", (~xx) * (PPlus * x), (~x) * (PPlus * xx), [], U, fn)
+    return dict(A=A3, defs=defs, ok=ok, P=P, PPlus=PPlus, G=G, D=Dm, DI=DI, H=H)
+
+
+def n_phi(B, l):
+    return B.cls["PhiMatrix"](l)
+
+
+def mod_inverse(B, A, name, lhs, rhs, Dm, DI, w, U, fn, bounded=None, timeout_ms=30000, hyps=()):
+    """claim lhs == rhs given D*DI == 1 (DI free otherwise), in two steps: (i) the hypothesis-free identity lhs - rhs == (D*DI - 1)*w
+    (z3 expands polynomials, no nonlinear hypotheses); (ii) the rewriting step r == (E - 1) w, E == 1 |- r == 0 on abstracted terms (E = D*DI == 1 is lemma N3b).
+    If (i) does not hold (changed tree) the claim is attacked directly under the hypotheses D*DI == 1: a model is then a genuine counterexample."""
+    dof = Dm.nr
+    E = Dm * DI
+    n0 = len(B.ctx.obligations)
+    ok = prove(B, A, name + " [identity: lhs - rhs == (D*DI - 1)*w, DI free]", lhs - rhs, (E - eye(dof)) * w, list(hyps), U, fn, timeout_ms=timeout_ms, bounded=bounded)
+    if ok:
+        r = Vec(*[R_("r_%d" % i) for i in range(dof)])
+        Ev = Mat([[R_("E_%d%d" % (i, j)) for j in range(dof)] for i in range(dof)])
+        wv = Vec(*[R_("w_%d" % i) for i in range(dof)])
+        hyp = eqs(r, (Ev - eye(dof)) * wv) + eqs(Ev, eye(dof))
+        return prove(B, None, name + " [from the identity and D*DI == 1]", r, Vec([0] * dof), hyp, U, fn, bounded=bounded)
+    # the sufficient identity failed: it is only a proof device, so withdraw it and decide the claim itself
+    del B.ctx.obligations[n0:]
+    return prove(B, A, name + " [direct, hypotheses D*DI == 1]", lhs, rhs, list(hyps) + eqs(E, eye(dof)), U, fn, timeout_ms=max(timeout_ms, 60000), bounded=bounded)
+
+
+def _arrays(sc, with_forces=True):
+    """symbolic work arrays for one node between parent (slot 0) and children (slots 2..)"""
+    dof, nb = sc.dof, sc.nb
+    nu = dof + len(sc.children)
+    a = dict(f=RArr([R_("f%d" % i) for i in range(nu)]), F=SVArr([sv("Fb%d" % i) for i in range(nb)]), eps=RArr(nu), z=SVArr(nb), zPlus=SVArr(nb), A=SVArr(nb),
+             udot=RArr(nu), tau=RArr(0))
+    for k, c in enumerate(sc.children):
+        a["zPlus"][c.nodeNum] = sv("zpc%d_" % k)
+    a["A"][0] = sv("Ap")
+    return a
+
+
+def fd_lemmas(B, sc, abi, U, zero_bias=False):
+    """calcUDotPass1Inward / calcUDotPass2Outward (zero_bias: multiplyByMInvPass1Inward / Pass2Outward) on the node of sc, any parent acceleration,
+    any children z+, any applied forces; P free symmetric, DI free symmetric (abi['A']); the joint equation needs D*DI == 1."""
+    n, tok, dof, A3 = sc.n, sc.tok, sc.dof, abi["A"]
+    P, PPlus, G, Dm, DI, H = abi["P"], abi["PPlus"], abi["G"], abi["D"], abi["DI"], abi["H"]
+    w = _arrays(sc)
+    if zero_bias:
+        fn = SPEC + "multiplyByMInvPass1Inward/Pass2Outward"
+        a, b, Fapp = zero_sv(), zero_sv(), zero_sv()
+        n.multiplyByMInvPass1Inward(tok, tok, tok, w["f"], w["z"], w["zPlus"], w["eps"])
+        n.multiplyByMInvPass2Outward(tok, tok, tok, w["eps"], w["A"], w["udot"])
+        tag = "MI"
+    else:
+        fn = SPEC + "calcUDotPass1Inward/Pass2Outward"
+        a, b = sv("a"), sv("b")
+        n.setMobilizerCoriolisAcceleration(tok, a); n.setGyroscopicForce(tok, b)
+        n.realizeArticulatedBodyVelocityCache(tok, tok, tok, tok)
+        Fapp = w["F"][n.nodeNum]
+        n.calcUDotPass1Inward(tok, tok, tok, tok, w["f"], w["F"], w["udot"], w["z"], w["zPlus"], w["eps"])
+        n.calcUDotPass2Outward(tok, tok, tok, tok, tok, w["eps"], w["A"], w["udot"], w["tau"])
+        tag = "FD"
+    z, zPlus, A_GB = w["z"][n.nodeNum], w["zPlus"][n.nodeNum], w["A"][n.nodeNum]
+    f, eps, udot = n.fromU(w["f"]), n.fromU(w["eps"]), n.fromU(w["udot"])
+    APlus = sc.shift_out(sc.l, w["A"][0])                      # written out: (alpha_P, a_P + alpha_P x l)
+    ok = True
+    zexp = P * a + b - Fapp
+    for c in sc.children:
+        zexp = zexp + sc.shift_in(c.l, w["zPlus"][c.nodeNum])
+    ok &= prove(B, A3, "%s1 z == P*a + b - F_applied + sum_c shift(z+_c)  (bias force of the articulated body%s)" % (tag, "; a = b = F = 0" if zero_bias else ""), z, zexp, [], U, fn)
+    Hu = H * udot
+    ok &= prove(B, A3, "%s2 A_GB == shift(A_GP) + H*udot + a  (body acceleration; a = mobilizer coriolis acceleration)" % tag, A_GB, APlus + Hu + a, [], U, fn)
+    T = P * (A_GB - a) + z
+    ok &= prove(B, A3, "%s3 P*(A_GB - a) + z == PPlus*shift(A_GP) + zPlus  (force across the joint as felt by the parent; induction invariant of the inward pass)" % tag,
+                T, PPlus * APlus + zPlus, [], U, fn)
+    ok &= mod_inverse(B, A3, "%s4 ~H*(P*(A_GB - a) + z) == f_mobility  (joint equation)" % tag, (~H) * T, f, Dm, DI, eps - (~H) * (P * APlus), U, fn)
+    return dict(ok=ok, w=w)
+
+
+def id_lemmas(B, sc, U, zero_bias=False):
+    """calcBodyAccelerationsFromUdotOutward + calcInverseDynamicsPass2Inward (zero_bias: multiplyByMPass1Outward / Pass2Inward)"""
+    n, tok, dof = sc.n, sc.tok, sc.dof
+    w = _arrays(sc)
+    nb = sc.nb
+    w["udot"] = RArr([R_("ud%d" % i) for i in range(dof + len(sc.children))])
+    Fc = SVArr(nb)
+    for k, c in enumerate(sc.children):
+        Fc[c.nodeNum] = sv("Fc%d_" % k)
+    tau = RArr(dof + len(sc.children))
+    if zero_bias:
+        fn = SPEC + "multiplyByMPass1Outward/Pass2Inward"
+        a, b, Fapp, fapp = zero_sv(), zero_sv(), zero_sv(), Vec([0] * dof)
+        n.multiplyByMPass1Outward(tok, w["udot"], w["A"])
+        n.multiplyByMPass2Inward(tok, w["A"], Fc, tau)
+        tag = "MM"
+    else:
+        fn = SPEC + "calcBodyAccelerationsFromUdotOutward/calcInverseDynamicsPass2Inward"
+        a, b = sv("a"), sv("b")
+        n.setMobilizerCoriolisAcceleration(tok, a); n.setGyroscopicForce(tok, b)
+        Fapp, fapp = w["F"][n.nodeNum], n.fromU(w["f"])
+        n.calcBodyAccelerationsFromUdotOutward(tok, tok, w["udot"], w["A"])
+        n.calcInverseDynamicsPass2Inward(tok, tok, w["A"], w["f"], w["F"], Fc, tau)
+        tag = "ID"
+    A_GB, F = w["A"][n.nodeNum], Fc[n.nodeNum]
+    udot = n.fromU(w["udot"])
+    ok = True
+    ok &= prove(B, None, "%s1 A_GB == shift(A_GP) + H*udot + a" % tag, A_GB, sc.shift_out(sc.l, w["A"][0]) + sc.H * udot + a, [], U, fn)
+    # Newton-Euler at the body origin, written out from mass, mass centre c and inertia I = m*G about the origin:
+    #   force  = m (a_lin + alpha x c),  moment = I alpha + m c x a_lin   (+ gyroscopic b)
+    m_, c_, I_ = sc.Mk.m, sc.Mk.p, sc.Mk.G.I_OF_F
+    al, ali = A_GB[0], A_GB[1]
+    NE = SpatialVec(m_ * (I_ * al) + m_ * cross(c_, ali), m_ * (ali + cross(al, c_)))
+    Fexp = NE + b - Fapp
+    for c in sc.children:
+        Fexp = Fexp + sc.shift_in(c.l, Fc[c.nodeNum])
+    ok &= prove(B, None, "%s2 F == Mk*A_GB + b - F_applied + sum_c shift(F_c)  (Newton-Euler at the body origin + shifted child forces)" % tag, F, Fexp, [], U, fn)
+    ok &= prove(B, None, "%s3 tau == ~H*F - f_applied" % tag, Vec(list(n.fromU(tau))), Vec([S.dot(list(sc.H.cols[j][0]), list(F[0])) + S.dot(list(sc.H.cols[j][1]), list(F[1])) for j in range(dof)]) - fapp, [], U, fn)
+    return dict(ok=ok)
+
+
+def dual_sv(x, dx):
+    return SpatialVec(Vec([D(val(a), val(b)) for a, b in zip(x[0].e, dx[0].e)]), Vec([D(val(a), val(b)) for a, b in zip(x[1].e, dx[1].e)]))
+
+
+def dual_vec(x, dx):
+    return Vec([D(val(a), val(b)) for a, b in zip(x.e, dx.e)])
+
+
+def vel_lemmas(B, dof, U, which="V1 V2 V3 V4 V5"):
+    """realizeVelocity + calcJointIndependentKinematicsVel + calcKineticEnergy of one node below an arbitrary moving parent: the velocity recursion, the
+    coriolis acceleration as the exact time derivative of the velocity recursion (dual numbers), the gyroscopic force against the Newton-Euler equations
+    obtained by differentiating the spatial momentum Mk(t)*V(t), the kinetic energy against 1/2 m |v_cm|^2 + 1/2 w.I_cm w."""
+    S.reset_env()
+    C = B.cls
+    tok = B.ns["ic"]
+    N, G0 = abstract_classes(B, dof)
+    fnv = "RigidBodyNode::calcJointIndependentKinematicsVel"
+    H, HD, l, u, ud = sym_H("h", dof), sym_H("hd", dof), v3("l"), [R_("u%d" % i) for i in range(dof)], [R_("ud%d" % i) for i in range(dof)]
+    V_GP, A_GP, atotP = sv("Vp"), sv("Ap"), sv("atp")
+    m_, c_, Gm = R_("km"), v3("kc"), S.symmat33(*[R_("kg%d" % i) for i in range(6)])
+    def mk(Hn, ln, un, Vp, cn, Gn):
+        par = N(0, 0, None)
+        par.setV_GB(tok, Vp); par.setTotalCoriolisAcceleration(tok, atotP)
+        n = N(1, 0, par, mass=D(m_))
+        n.setH(tok, Hn); n.setH_FM(tok, Hn); n.setPhi(tok, C["PhiMatrix"](ln)); n.setMk_G(tok, C["SpatialInertia"](m_, cn, C["UnitInertia"](Gn)))
+        n.sym_HDot_FM, n.sym_HDot = HD, HD
+        mt = C["Matter"]([[par], [n]])
+        mt.u = RArr(list(un))
+        n.realizeVelocity(mt.sbs)
+        return n
+    n0 = mk(H, l, u, V_GP, c_, Gm)
+    V = n0.getV_GB(tok)
+    w_, v_ = V[0], V[1]
+    Hu = H * u
+    ok = True
+    which = which.split()
+    ok &= prove(B, None, "V1 V_GB == (w_P + (H u)_w, v_P + w_P x l + (H u)_v)  (velocity recursion)", V, SpatialVec(V_GP[0] + Hu[0], V_GP[1] + cross(V_GP[0], l) + Hu[1]), [], U, fnv)
+    if "V2" not in which:
+        return _vel_tail(B, U, n0, which, m_, c_, Gm, w_, v_, atotP, l, tok, fnv, ok)
+    # V2: the same recursion on dual numbers: V_GP(t) (rate A_GP), H(t) (rate HDot), u(t) (rate udot), l(t) = p_PB_G(t) with d/dt l = v_GB - v_GP
+    ldot = Vec([val(v_[i]) - val(V_GP[1][i]) for i in range(3)])
+    Ht = HMat(dof, [dual_sv(H.cols[j], HD.cols[j]) for j in range(dof)])
+    n1 = mk(Ht, dual_vec(l, ldot), [D(a, b) for a, b in zip(u, ud)], dual_sv(V_GP, A_GP), c_, Gm)
+    Aarr = SVArr(2); Aarr[0] = A_GP
+    n0.calcBodyAccelerationsFromUdotOutward(tok, tok, RArr(ud), Aarr)
+    ok &= prove(B, None, "V2 d/dt V_GB(t) == shift(A_GP) + H*udot + a_mobilizer  (coriolis acceleration = velocity-dependent part of the time derivative of the velocity recursion; "
+                "d/dt p_PB_G = v_GB - v_GP, d/dt H = HDot)", remap(lambda x: D(der(x)), n1.getV_GB(tok)), Aarr[1], [], U, fnv + " + calcBodyAccelerationsFromUdotOutward")
+    # V3: Newton-Euler from the momentum: h(t) = Mk(t) V(t) about the (moving) body origin; c(t) rotates with w, G(t) rotates with w; V(t) has an arbitrary rate A
+    Aany = sv("Aa")
+    W = crossMat(Vec([val(x) for x in w_.e]))
+    Gv = Mat([[val(x) for x in r] for r in Gm.m])
+    Gdot = W * Gv - Gv * W
+    Gt = S.SymMat([[D(val(Gv.m[i][j]), val(Gdot.m[i][j])) for j in range(3)] for i in range(3)])
+    wv = Vec([val(x) for x in w_.e])
+    ct = dual_vec(c_, cross(wv, c_))
+    Mt = C["SpatialInertia"](m_, ct, C["UnitInertia"](Gt))
+    Vt = dual_sv(remap(lambda x: D(val(x)), V), Aany)
+    h = Mt * Vt
+    L = Vec([val(x) for x in h[1].e])
+    vv = Vec([val(x) for x in v_.e])
+    lhs = SpatialVec(Vec([D(der(x)) for x in h[0].e]) + cross(vv, L), Vec([D(der(x)) for x in h[1].e]))
+    rhs = n0.getMk_G(tok) * Aany + n0.getGyroscopicForce(tok)
+    ok &= prove(B, None, "V3 (d/dt(k) + v x L, d/dt(L)) == Mk*A + b for (k,L) = Mk(t)*V(t)  (gyroscopic force b = what Newton-Euler at the moving body origin requires beyond Mk*A)",
+                lhs, rhs, [], U, fnv + " + SpatialInertia_::operator*")
+    return _vel_tail(B, U, n0, which, m_, c_, Gm, w_, v_, atotP, l, tok, fnv, ok)
+
+
+def _vel_tail(B, U, n0, which, m_, c_, Gm, w_, v_, atotP, l, tok, fnv, ok):
+    wv = Vec([val(x) for x in w_.e])
+    vv = Vec([val(x) for x in v_.e])
+    Gv = Mat([[val(x) for x in r] for r in Gm.m])
+    if "V4" in which:
+        # V4: totals used by calcEquivalentJointForces
+        amob = n0.getMobilizerCoriolisAcceleration(tok)
+        atot = SpatialVec(atotP[0], atotP[1] + cross(atotP[0], l)) + amob
+        ok &= prove(B, None, "V4a total coriolis acceleration == shift(parent's) + a_mobilizer", n0.getTotalCoriolisAcceleration(tok), atot, [], U, fnv)
+        ok &= prove(B, None, "V4b total centrifugal force == Mk*a_total + b", n0.getTotalCentrifugalForces(tok), n0.getMk_G(tok) * atot + n0.getGyroscopicForce(tok), [], U, fnv)
+    if "V5" in which:
+        # V5: kinetic energy against the textbook form
+        ok &= prove(B, None, "V5 calcKineticEnergy == 1/2 m |v_cm|^2 + 1/2 w.I_cm w", n0.calcKineticEnergy(tok, tok), ke_textbook(m_, c_, Gv, wv, vv), [], U, "RigidBodyNode::calcKineticEnergy")
+    return ok
+
+
+def ke_textbook(m_, c_, Gv, wv, vv):
+    vcm = vv + cross(wv, c_)
+    Gc = Gv - (S.dot(list(c_), list(c_)) * eye(3) - Mat([[c_[i] * c_[j] for j in range(3)] for i in range(3)]))      # unit central inertia (parallel axis)
+    return D(m_) * S.dot(list(vcm), list(vcm)) / 2 + D(m_) * S.dot(list(wv), list(Gc * wv)) / 2
+
+
+def tree_roundtrips(B, nb, U, mode):
+    """mode 'dyn': inverse(forward(f)) == 0 residual and forward(f + inverse(udot*)) == udot*;
+       mode 'mass': multiplyByM(multiplyByMInv(v)) == v and multiplyByMInv(multiplyByM(x)) == x.
+    nb == 1: direct. nb == 2: lemma chain = the induction step instantiated: (i) the tip node alone (parent motion abstracted), (ii) the base joint with the
+    tip's outputs (P+, z+, F) abstracted and related by (i)."""
+    T = Tree(B, nb, 1, bias="symbolic" if mode == "dyn" else "zero")
+    tok = T.tok
+    ok = True
+    bd = BOUND
+    dyn = mode == "dyn"
+    f = T.rvec("f")
+    Fb = T.svec("Fb") if dyn else None
+    fnF = "SimbodyMatterSubsystemRep::calcTreeAccelerations + calcTreeResidualForces" if dyn else "SimbodyMatterSubsystemRep::multiplyByMInv + multiplyByM"
+    name1 = "inverse(forward(f, F)) residual" if dyn else "multiplyByM(multiplyByMInv(v)) - v"
+    name2 = "forward(f + inverse(udot*)) == udot*" if dyn else "multiplyByMInv(multiplyByM(x)) == x"
+    def fwd(ff):
+        if dyn:
+            o = T.forward(ff, Fb)
+            return dict(udot=o["udot"], zPlus=o["zPlus"], A=o["A"], eps=o["eps"])
+        ud = T.mulMInv(ff)
+        return dict(udot=ud, zPlus=B.temps["zPlus"], A=B.temps["A_GB"], eps=B.temps["eps"])
+    def inv(ud):
+        """-> residual-like vector r with r = M ud + bias - f (dyn) or M ud (mass), the force array F and the acceleration array"""
+        if dyn:
+            o = T.inverse(f, Fb, ud)
+            return dict(r=o["res"], F=B.temps["allFTmp"], A=o["A"])
+        Ma = T.mulM(ud)
+        return dict(r=Ma, F=B.temps["fTmp"], A=B.temps["A_GB"])
+    n1 = T.nodes[1]
+    n2 = T.nodes[2] if nb == 2 else None
+    # ---------------- round trip 1 ----------------
+    fw = fwd(f)
+    defs = recip_defs()                       # tip first (inward sweep)
+    assert len(defs) == nb
+    B.guard_sat("%s 1/D exists for every joint" % U, defs, U)
+    iv = inv(fw["udot"])
+    goal = (lambda k: iv["r"][k]) if dyn else (lambda k: iv["r"][k] - f[k])
+    if nb == 1:
+        ok &= prove(B, None, "%s == 0, joint 1" % name1, goal(0), 0, defs, U, fnF, bounded=bd)
+    else:
+        ok &= prove(B, None, "%s == 0, joint 2 (tip)" % name1, goal(1), 0, defs, U, fnF, bounded=bd)
+        # (i) tip: F_2 == PPlus_2*shift(A_1) + zPlus_2 for ANY base acceleration of the form H_1*udot_1 + a_1 (udot_1 abstracted)
+        A = Abstraction()
+        A.bind([fw["udot"][0]], "ud1")
+        PP2, l2 = n2.getPPlus(tok), n2.getPhi(tok).l()
+        A1 = iv["A"][1]
+        shiftA1 = SpatialVec(A1[0], A1[1] + cross(A1[0], l2))
+        ok &= prove(B, A, "chain(i) tip: F_2 == PPlus_2*shift(A_1) + zPlus_2  (udot_1 free)", iv["F"][2], PP2 * shiftA1 + fw["zPlus"][2], [], U, fnF, bounded=bd)
+        # (ii) base joint, tip outputs abstracted
+        A = Abstraction()
+        Fv = A.bind(iv["F"][2], "F2")
+        zv = A.bind(fw["zPlus"][2], "zp2")
+        Pv = A.bind(PP2, "pp2")
+        A1a = A.map(A1)
+        hyp = eqs(Fv, Pv * SpatialVec(A1a[0], A1a[1] + cross(A1a[0], l2)) + zv)
+        B.guard_sat("%s chain(ii) hypotheses" % U, hyp + [A(defs[1])], U)
+        ok &= mod_inverse(B, A, "%s == 0, joint 1 (base)  [tip outputs P+_2, z+_2, F_2 abstracted, related by chain(i)]" % name1, Vec([goal(0)]), Vec([0]),
+                          n1.getD(tok), n1.getDI(tok), Vec([fw["eps"][0]]), U, fnF, bounded=bd, hyps=hyp)
+    # ---------------- round trip 2 ----------------
+    xs = T.rvec("us")                         # (the ABI realization is repeated by the driver: same terms, same reciprocal variables)
+    iv = inv(xs)
+    F2s = SpatialVec(Vec(list(iv["F"][nb][0].e)), Vec(list(iv["F"][nb][1].e)))
+    A1s = iv["A"][1]
+    fp = RArr([f[k] + iv["r"][k] for k in range(nb)]) if dyn else RArr(list(iv["r"]))
+    fw = fwd(fp)
+    defs = recip_defs()
+    assert len(defs) == nb
+    if nb == 1:
+        ok &= prove(B, None, "%s, joint 1" % name2, fw["udot"][0], xs[0], defs, U, fnF, bounded=bd)
+    else:
+        PP2, l2 = n2.getPPlus(tok), n2.getPhi(tok).l()
+        shiftA1 = SpatialVec(A1s[0], A1s[1] + cross(A1s[0], l2))
+        # (i) tip: F*_2 - zPlus_2 == PPlus_2*shift(A*_1) (needs 1/D_2)
+        ok &= prove(B, None, "chain(i) tip: F*_2 - zPlus_2 == PPlus_2*shift(A*_1)", F2s - fw["zPlus"][2], PP2 * shiftA1, [defs[0]], U, fnF, bounded=bd)
+        # (ii) base joint with tip outputs abstracted
+        A = Abstraction()
+        Fv = A.bind(F2s, "F2")
+        zv = A.bind(fw["zPlus"][2], "zp2")
+        Pv = A.bind(PP2, "pp2")
+        hyp = eqs(Fv - zv, Pv * A.map(shiftA1)) + [A(defs[1])]
+        B.guard_sat("%s chain(ii) hypotheses, second round trip" % U, hyp, U)
+        ok1 = prove(B, A, "%s, joint 1 (base)  [tip outputs abstracted, related by chain(i)]" % name2, fw["udot"][0], xs[0], hyp, U, fnF, bounded=bd)
+        ok &= ok1
+        # (iii) tip joint with udot_1 replaced by udot*_1 (ii)
+        A = Abstraction()
+        A.rewrite([fw["udot"][0]], [D(xs[0].v if isinstance(xs[0], D) else xs[0])])
+        ok &= prove(B, A, "%s, joint 2 (tip)  [udot_1 == udot*_1 by the base-joint obligation]" % name2, fw["udot"][1], xs[1], [defs[0]], U, fnF, bounded=bd)
+    return ok
+
+
+def tree_mass(B, nb, U):
+    """mass-matrix operator facts on the small trees: symmetry, kinetic energy, composite-rigid-body closed form (hypothesis-free polynomial identities
+    except where SpatialInertia += divides by the total mass)"""
+    bd = BOUND
+    ok = True
+    T = Tree(B, nb, 1, bias="none")
+    tok = T.tok
+    fnM = "SimbodyMatterSubsystemRep::multiplyByM"
+    x, y = T.rvec("x"), T.rvec("y")
+    Mx, My = T.mulM(x), T.mulM(y)
+    if nb > 1:
+        ok &= prove(B, None, "~y*(M x) == ~x*(M y)  (M symmetric)", S.dot(list(y), list(Mx)), S.dot(list(x), list(My)), [], U, fnM, bounded=bd)
+    # kinetic energy with body velocities from the real velocity recursion
+    u = T.rvec("u")
+    T.matter.u = u
+    T.matter.realizeVelocityKinematics(tok)
+    ke = T.matter.calcKineticEnergy(tok)
+    Mu = T.mulM(u)
+    ok &= prove(B, None, "calcKineticEnergy == 1/2 ~u*(M u)  (V_GB from realizeVelocityKinematics)", ke, S.dot(list(u), list(Mu)) / 2, [], U,
+                fnM + " + realizeVelocityKinematics + calcKineticEnergy", bounded=bd)
+    # composite rigid body closed form, R from the real calcCompositeBodyInertias
+    Rr = B.cls["SIArr"](nb + 1)
+    T.matter.calcCompositeBodyInertias(tok, Rr)
+    defs = [sum((val(T.nodes[k].getMk_G(tok).m) for k in range(2, nb + 1)), val(T.nodes[1].getMk_G(tok).m)) != 0] if nb > 1 else []     # SpatialInertia += divides by the total mass
+    H = [None] + [T.nodes[k].getH(tok).cols[0] for k in range(1, nb + 1)]
+    fnR = fnM + " + calcCompositeBodyInertias"
+    e = lambda k: RArr([1 if i == k else 0 for i in range(nb)])
+    cols = [T.mulM(e(k)) for k in range(nb)]               # column k of M (what calcM assembles)
+    if defs:
+        B.guard_sat("%s total mass != 0" % U, defs, U)
+    if nb == 1:
+        ok &= prove(B, None, "M == ~H*(Mk*H)  (one body: composite body = the body)", cols[0][0], (~H[1]) * (T.nodes[1].getMk_G(tok) * H[1]), [], U, fnM, bounded=bd)
+    ok &= prove(B, None, "M[k][k] == ~H_k*(R_k*H_k), k = tip  (composite-rigid-body form)", cols[nb - 1][nb - 1], (~H[nb]) * (Rr[nb] * H[nb]), [], U, fnR, bounded=bd)
+    if nb == 2:
+        ok &= prove(B, None, "M[1][1] == ~H_1*(R_1*H_1)  (R_1 = Mk_1 + shifted Mk_2 from calcCompositeBodyInertias; total mass != 0)", cols[0][0], (~H[1]) * (Rr[1] * H[1]), defs, U, fnR, bounded=bd)
+        l2 = T.nodes[2].getPhi(tok).l()
+        RH = Rr[2] * H[2]
+        ok &= prove(B, None, "M[1][2] == ~H_1*shift(R_2*H_2)", cols[1][0], (~H[1]) * SpatialVec(RH[0] + cross(l2, RH[1]), RH[1]), [], U, fnR, bounded=bd)
+        ok &= prove(B, None, "M[2][1] == M[1][2]", cols[0][1], cols[1][0], [], U, fnR, bounded=bd)
+    return ok
+
+
+def tree_dyn_extra(B, nb, U):
+    """inverse dynamics == M*udot + C(q,u) - f_applied - ~J*F_applied with the real multiplyByM and multiplyBySystemJacobianTranspose (hypothesis-free)"""
+    bd = BOUND
+    T = Tree(B, nb, 1, bias="symbolic")
+    tok = T.tok
+    f, Fb, ud = T.rvec("f"), T.svec("Fb"), T.rvec("ud")
+    zf, zF, zu = RArr([0] * nb), SVArr([zero_sv() for _ in range(nb + 1)]), RArr([0] * nb)
+    full = T.inverse(f, Fb, ud)["res"]
+    C0 = T.inverse(zf, zF, zu)["res"]
+    Mu = T.mulM(ud)
+    JtF = RArr(nb)
+    T.matter.multiplyBySystemJacobianTranspose(tok, Fb, JtF)
+    fn = "SimbodyMatterSubsystemRep::calcTreeResidualForces + multiplyByM + multiplyBySystemJacobianTranspose"
+    return prove(B, None, "residual(f, F, udot) == M*udot + C(q,u) - f - ~J*F  (C = residual at udot = 0 without applied forces; body forces enter exactly as ~J*F)",
+                 Vec(list(full)), Vec([Mu[k] + C0[k] - f[k] - JtF[k] for k in range(nb)]), [], U, fn, bounded=bd)
+
+
+def tree_psd(B, nb, U):
+    """M positive semidefinite for physically valid bodies: (a) ~u M u == sum_k m_k (|v_cm,k|^2 + w_k.Gc_k w_k) with V_k from the real velocity recursion
+    (Gc = unit central inertia by the parallel-axis theorem); (b) on abstracted terms: m_k >= 0, Gc_k quadratic form >= 0 |- the sum >= 0"""
+    bd = BOUND
+    T = Tree(B, nb, 1, bias="none")
+    tok = T.tok
+    u = T.rvec("u")
+    T.matter.u = u
+    T.matter.realizeVelocityKinematics(tok)
+    Mu = T.mulM(u)
+    tot = None
+    for k in range(1, nb + 1):
+        n = T.nodes[k]
+        Mk, V = n.getMk_G(tok), n.getV_GB(tok)
+        Gv = Mat([[val(x) for x in r] for r in Mk.G.I_OF_F.m])
+        t = 2 * ke_textbook(val(Mk.m), Mk.p, Gv, Vec([val(x) for x in V[0].e]), Vec([val(x) for x in V[1].e]))
+        tot = t if tot is None else tot + t
+    fn = "SimbodyMatterSubsystemRep::multiplyByM + realizeVelocityKinematics"
+    ok = prove(B, None, "~u*(M u) == sum_k m_k*(|v_cm,k|^2 + w_k.Gc_k w_k)  (Gc_k = unit central inertia of body k)", S.dot(list(u), list(Mu)), tot, [], U, fn, bounded=bd)
+    ms = [z3.Real("m_%d" % k) for k in range(nb)]; sq = [[z3.Real("vcm_%d%d" % (k, i)) for i in range(3)] for k in range(nb)]; qs = [z3.Real("q_%d" % k) for k in range(nb)]
+    total = sum((ms[k] * (sum(x * x for x in sq[k]) + qs[k]) for k in range(1, nb)), ms[0] * (sum(x * x for x in sq[0]) + qs[0]))
+    hyp = [m >= 0 for m in ms] + [q >= 0 for q in qs]
+    B.guard_sat("%s psd hypotheses" % U, hyp, U)
+    n0 = len(B.ctx.obligations)
+    r = B.prove_bool("~u*(M u) >= 0 when m_k >= 0 and w.Gc_k w >= 0 for every body  (M positive semidefinite) [from the identity above, terms abstracted]", total >= 0, hyp, U, fn, minimal=True)
+    for ob in B.ctx.obligations[n0:]:
+        ob.bounded = bd
+    return ok and r.status == "discharged"
